@@ -1,3 +1,8 @@
 #!/bin/sh
-# placeholder: built out as the engine lands
-exit 0
+# Build the engine offline (x/tools v0.29.0 from the module cache, default go).
+set -e
+cd "$(dirname "$0")"
+export GOFLAGS=-mod=mod GOPROXY=off GOSUMDB=off GOTOOLCHAIN=local CGO_ENABLED=0
+mkdir -p bin out evidence
+(cd engine && go build -o ../bin/gosmt .)
+echo "gosmt built: $(ls -la bin/gosmt | awk '{print $5}') bytes"
